@@ -143,7 +143,8 @@ fn cmd_run(args: &[String]) -> i32 {
         let files = files_of(&j["files"]);
         let opts = j["opts"].clone();
         for (si, s) in j["scripts"].as_array().unwrap().iter().enumerate() {
-            writeln!(w, "{}", json!({"e":"reset","job":ji,"script":si})).unwrap();
+            writeln!(w, "{}", json!({"e":"reset","job":j.get("tag").cloned().unwrap_or(json!(ji)),"script":si,
+                "params": j.get("params").cloned().unwrap_or(Value::Null)})).unwrap();
             let script = s.as_array().unwrap().clone();
             let mut buf: Vec<u8> = vec![];
             let r = std::panic::catch_unwind(std::panic::AssertUnwindSafe(|| {
@@ -162,6 +163,7 @@ fn cmd_run(args: &[String]) -> i32 {
             }
         }
     }
+    writeln!(w, "{}", json!({"e":"end"})).unwrap();
     w.flush().unwrap();
     0
 }
@@ -284,6 +286,34 @@ fn cmd_replay_edges(args: &[String]) -> i32 {
     0
 }
 
+/// keytable <out.json>: every key name accepted by str_to_oscode among a candidate list, with
+/// its code; plus code -> KeyCode debug name for all codes.
+fn cmd_keytable(args: &[String]) -> i32 {
+    let mut names = serde_json::Map::new();
+    let cands = [
+        "a","b","c","d","e","f","g","h","i","j","k","l","m","n","o","p","q","r","s","t","u","v","w","x","y","z",
+        "1","2","3","4","5","6","7","8","9","0","lsft","rsft","lctl","rctl","lalt","ralt","lmet","rmet",
+        "spc","ret","tab","esc","bspc","del","caps","f1","f2","f3","f4","f5","f6","f7","f8","f9","f10","f11","f12",
+        "left","right","up","down","home","end","pgup","pgdn","ins","min","eql","lbrc","rbrc","scln","apos","grv",
+        "bksl","comm","dot","slsh","kp0","kp1","kp2","kp3","kp4","kp5","kp6","kp7","kp8","kp9","mlft","mrgt","mmid",
+        "mbck","mfwd","mwu","mwd","mwl","mwr",
+    ];
+    for n in cands {
+        if let Some(o) = kanata_parser::keys::str_to_oscode(n) {
+            names.insert(n.to_string(), json!(o.as_u16()));
+        }
+    }
+    let mut codes = serde_json::Map::new();
+    for c in 0u16..=767 {
+        if let Some(o) = kanata_parser::keys::OsCode::from_u16(c) {
+            let kc: kanata_keyberon::key_code::KeyCode = o.into();
+            codes.insert(c.to_string(), json!(format!("{kc:?}")));
+        }
+    }
+    std::fs::write(&args[0], serde_json::to_string(&json!({"names": names, "codes": codes})).unwrap()).unwrap();
+    0
+}
+
 fn main() {
     let args: Vec<String> = std::env::args().collect();
     if args.len() < 2 {
@@ -295,6 +325,7 @@ fn main() {
         "run" => cmd_run(rest),
         "dump-cfg" => cmd_dump(rest),
         "replay-edges" => cmd_replay_edges(rest),
+        "keytable" => cmd_keytable(rest),
         other => {
             eprintln!("unknown command {other}");
             2
